@@ -25,6 +25,7 @@ pub mod c15;
 pub mod c16;
 pub mod c18;
 pub mod c19;
+pub mod c20;
 
 pub const ALL: &[Prop] = &[
     Prop { id: "C01", run: c01::run, parts: c01::parts },
@@ -45,4 +46,5 @@ pub const ALL: &[Prop] = &[
     Prop { id: "C16", run: c16::run, parts: c16::parts },
     Prop { id: "C18", run: c18::run, parts: c18::parts },
     Prop { id: "C19", run: c19::run, parts: c19::parts },
+    Prop { id: "C20", run: c20::run, parts: c20::parts },
 ];
